@@ -56,6 +56,11 @@ def stepLine (st : St) (line : String) : Except String St :=
         | some (i, _) => .error s!"epoch incremented from {st.E} while the active session on slot {i} has begin {bg st i}"
         | none => .ok { st with E := st.E + 1, incs := st.incs + 1, checks := st.checks + 1 }
       else if k == 1 && f == 9 then
+        -- The monitor's E comes from `EPOCH0` (read by the harness just before the run is put under
+        -- the scheduler) plus the increments seen in the trace; the free-running epoch thread can
+        -- tick once in between, unseen. A gc epoch equal to our E therefore means "E is one behind":
+        -- resynchronise. Anything larger cannot be explained by that and is an error.
+        let st := if v == st.E then { st with E := v + 1 } else st
         let st' := { st with G := v, checks := st.checks + 1 }
         if !(v < st.E) then .error s!"gc epoch {v} not below the global epoch {st.E}"
         else match windowOk st' with
